@@ -266,6 +266,18 @@ fn mutate<T: serde::Serialize + serde::de::DeserializeOwned>(t: &Table, r: T, c:
             }
         }
     }
+    // two neighbouring players that are equal in every respect (two clients still connecting, two default names): the views
+    // must list both
+    if let Some((pp, _, _)) = &t.players {
+        if crate::rsm::pick(c, &[false, true]) {
+            if let Some(Value::Array(list)) = v.pointer_mut(pp) {
+                if let Some(first) = list.first().cloned() {
+                    list.insert(1, first);
+                    changed = true;
+                }
+            }
+        }
+    }
     if !changed {
         return r;
     }
@@ -329,6 +341,9 @@ fn check_view(t: &Table, r: &dyn CommonResponse, specific: &Value) -> Option<(St
                 (Value::Array(list), Some(got)) => {
                     if list.len() != got.len() {
                         return Some((format!("generic-accessor:{}:players", t.name), "players().len()".into(), got.len().to_string(), list.len().to_string()));
+                    }
+                    if pj.as_array().map(|a| a.len()) != Some(list.len()) {
+                        return Some((format!("generic-json:{}:players", t.name), "as_json().players length".into(), pj.as_array().map_or("not a list".to_string(), |a| a.len().to_string()), list.len().to_string()));
                     }
                     for (i, (s, g)) in list.iter().zip(got.iter()).enumerate() {
                         let want_name = s.get(*name_key).cloned().unwrap_or(Value::Null);
@@ -403,7 +418,7 @@ impl Prop for C15 {
          (the reference model's expected value, no network); a table written from RESPONSES.md and the type definitions gives, per \
          type, the specific field each generic accessor corresponds to (blank cell and no corresponding field => None): every \
          accessor must return exactly that field's value, as_json() must contain exactly the accessor values, every player's \
-         name/score likewise, and as_original() (response and players) must serialise to exactly the original value. \
+         name/score likewise (also with two equal neighbouring players: the lists have the same length), and as_original() (response and players) must serialise to exactly the original value. \
          distinct_nontrivial = distinct response values"
             .into()
     }
